@@ -150,6 +150,10 @@ def run(fx, tier):
     if 'R-TABLE' not in v.rules:
         v.rule('R-TABLE', 'reason-code tables of the packets this property handles equal the MQTT 5 tables')
     table_rows_rule(fx, v, 'C03', ('pubrec', 'pubcomp'))
+    from c01 import reply_matching_rule
+    if 'R-DOM' not in v.rules:
+        v.rule('R-DOM', 'reply matching on control code and packet identifier')
+    reply_matching_rule(fx, v, 'C03')
     v.expect_min('R-CGRAPH', 30, 'paths of QoS 2 states')
     v.expect_min('R-FLOW', 40, 'send paths')
     v.expect_min('R-OWN', 10, 'set_dup callers/writes × TUs')
